@@ -121,7 +121,6 @@ func (pq *plotterQueue) Reset() {
 
 func (sk *SpaceKeeper) spacePlotter() {
 	verifGate("spawn", "", false)
-	sk.wg.Add(1)
 	defer sk.wg.Done()
 	defer verifGate("exit", "", false)
 	verifGate("start", "", false)
